@@ -35,7 +35,7 @@ def main():
     while args:
         a = args.pop(0)
         if a == "--props":
-            props = args.pop(0).split(",")
+            props = [x for x in args.pop(0).split(",") if x != "none"]
         elif a == "--budget":
             budget = float(args.pop(0))
         elif a == "--no-tests":
@@ -65,7 +65,11 @@ def main():
         env = dict(os.environ, PYTHONDONTWRITEBYTECODE="1", PYTHONPATH=wt)
         if os.path.exists(demo):
             os.makedirs(os.path.join(wt, "_deliver"), exist_ok=True)
-            shutil.copy(demo, os.path.join(wt, "_deliver", "demo.py"))
+            # demonstrations written in /tmp/mut/<id> may name that
+            # directory; here they must test this scratch tree
+            text = open(demo).read().replace(f"/tmp/mut/{name}", wt)
+            with open(os.path.join(wt, "_deliver", "demo.py"), "w") as fh:
+                fh.write(text)
             rc, so, se = sh(["/venv/bin/python", "-B", "_deliver/demo.py"],
                             cwd=wt,
                             env=env, timeout=900)
